@@ -1882,155 +1882,328 @@ fn oracle_queue_directed<W: BitArray>(rng: &mut Rng, reps: usize, rep: &mut Repo
     rep.count(&format!("C16.directed.queue.W{}", w));
 }
 
-/// C08 twin run around `get_compressed()`: after every number of written bits (word multiples
-/// included) take one or two guard views, drop them, and compare everything observable with a
-/// twin that holds the same bits and was never inspected: the view itself (= what the twin
-/// exports), `len` / `is_empty`, and — after writing `m` more bits to both — the final export and
-/// what reading back yields.  One function per coder because `get_compressed` is not generic.
-fn guard_twin_queue<W: BitArray>(bs: &[bool], views: usize, more: &[bool], rep: &mut Report) {
-    let w = W::BITS;
-    let desc = format!("bits.queue {:x} | new | ws {}", w, show_bits(bs));
-    // two identically treated inspected coders: one is exported, the other one read back
+/// C08 twin run around `get_compressed()`.  A coder is brought into a state by `make` (plain
+/// writes; writes followed by reads — in particular back to exactly a word boundary, which
+/// leaves "nothing pending, backend non-empty"; or `from_compressed` of exported data); `ghost`
+/// is the content it then holds (reference, first written first) and `desc` the protocol line
+/// that builds it.  Then one or two guard views are taken and dropped and everything observable
+/// is compared with a twin that was built the same way and never inspected, **and** with the
+/// reference content: the view itself (= what the twin exports), `len` / `is_empty`, and — after
+/// writing `more` bits to both — the final export and what reading everything back yields.
+/// Tags: every difference from the twin is C08; lost / changed content and a wrong `len` are also
+/// C16 ("what is read back equals what was written", exact length) — for a history that happens
+/// to contain an inspection; wrong `len` / `is_empty` also C18.
+/// One function per coder because `get_compressed` is not generic.
+fn guard_twin_stack<W: BitArray>(
+    desc: &str,
+    make: &dyn Fn() -> StackCoder<W>,
+    ghost: &[bool],
+    views: usize,
+    more: &[bool],
+    rep: &mut Report,
+) {
     for readback in [false, true] {
-        let mut c = queue_of::<W>(bs);
-        let mut twin = queue_of::<W>(bs);
-        let mut d = desc.clone();
+        let mut c = make();
+        let mut twin = make();
+        let mut d = desc.to_string();
         for _ in 0..views {
             d.push_str(" | getc");
             rep.eval("C08");
+            set_case(&d);
             let view: Vec<W> = c.get_compressed().to_vec();
-            let exp = queue_of::<W>(bs).into_compressed().unwrap_infallible();
+            let exp = make().into_compressed().unwrap_infallible();
             if view != exp {
-                rep.fail("C08", format!("{} => guard shows {} but a freshly encoded twin with the same bits exports {}", d, show_words(&view), show_words(&exp)));
+                rep.fail("C08", format!("{} => guard shows {} but an uninspected twin with the same history exports {}", d, show_words(&view), show_words(&exp)));
                 return;
             }
         }
         // (a) size / emptiness
         rep.eval("C08");
+        rep.eval("C16");
         rep.eval("C18");
+        set_case(&format!("{} | len | empty", d));
         let (l, e, tl, te) = (c.len(), SymbolCoder::is_empty(&c), twin.len(), SymbolCoder::is_empty(&twin));
-        if l != tl || e != te {
-            rep.fail("C08", format!("{} | len | empty => {:x} {} but the uninspected twin reports {:x} {}", d, l, e, tl, te));
-            if tl == bs.len() {
-                rep.fail("C18", format!("{} | len | empty => {:x} {} but {:x} bits were written", d, l, e, bs.len()));
+        if l != tl || e != te || l != ghost.len() || e != ghost.is_empty() {
+            let msg = format!("{} | len | empty => {:x} {} but the uninspected twin reports {:x} {} and {:x} bits were written and not read back", d, l, e, tl, te, ghost.len());
+            if l != tl || e != te {
+                rep.fail("C08", msg.clone());
             }
+            if l != ghost.len() {
+                rep.fail("C16", msg.clone());
+            }
+            rep.fail("C18", msg);
             return;
         }
         // (b) keep writing, then finish
         if !more.is_empty() {
             d.push_str(&format!(" | ws {}", show_bits(more)));
         }
+        set_case(&d);
         for &b in more {
             c.write_bit(b).unwrap_infallible();
             twin.write_bit(b).unwrap_infallible();
         }
+        let mut all = ghost.to_vec();
+        all.extend(more.iter());
+        let mut all_rev = all.clone();
+        all_rev.reverse();
         rep.eval("C08");
+        rep.eval("C16");
         if !readback {
+            d.push_str(" | export");
+            set_case(&d);
             let v = c.into_compressed().unwrap_infallible();
             let tv = twin.into_compressed().unwrap_infallible();
             if v != tv {
-                rep.fail("C08", format!("{} | export => {} but the uninspected twin exports {}", d, show_words(&v), show_words(&tv)));
-                return;
+                rep.fail("C08", format!("{} => {} but the uninspected twin exports {}", d, show_words(&v), show_words(&tv)));
+            }
+            // the export of the inspected coder must still carry the content
+            set_case(&format!("{} | drain", d));
+            let shown = show_words(&v);
+            match StackCoder::<W>::from_compressed(v) {
+                Ok(c2) => {
+                    let back: Vec<bool> = c2.map(|b| b.unwrap_infallible()).collect();
+                    if back != all_rev {
+                        rep.fail("C16", format!("{} | drain => exported {}, which re-imports as {} but {} was written and not read back", d, shown, show_bits(&back), show_bits(&all_rev)));
+                        return;
+                    }
+                }
+                Err(_) => {
+                    rep.fail("C16", format!("{} => exported {}, which from_compressed rejects", d, shown));
+                    return;
+                }
             }
         } else {
-            rep.eval("C16");
-            let got: Vec<bool> = c.into_decoder().unwrap_infallible().map(|b| b.unwrap_infallible()).collect();
-            let tgot: Vec<bool> = twin.into_decoder().unwrap_infallible().map(|b| b.unwrap_infallible()).collect();
+            d.push_str(" | drain");
+            set_case(&d);
+            let got: Vec<bool> = c.by_ref().map(|b| b.unwrap_infallible()).collect();
+            let tgot: Vec<bool> = twin.by_ref().map(|b| b.unwrap_infallible()).collect();
             if got != tgot {
-                rep.fail("C08", format!("{} | todec | drain => {} but the uninspected twin yields {}", d, show_bits(&got), show_bits(&tgot)));
+                rep.fail("C08", format!("{} => {} but the uninspected twin yields {}", d, show_bits(&got), show_bits(&tgot)));
+            }
+            if got != all_rev {
+                rep.fail("C16", format!("{} => {} but {} was written and not read back (expected in reverse order)", d, show_bits(&got), show_bits(&all)));
                 return;
             }
-            let mut all = bs.to_vec();
-            all.extend(more.iter());
-            if got.len() < all.len() || got[..all.len()] != all[..] {
-                rep.fail("C16", format!("{} | todec | drain => {} does not start with the written bits {}", d, show_bits(&got), show_bits(&all)));
+            if c.len() != 0 || !SymbolCoder::is_empty(&c) {
+                rep.fail("C18", format!("{} | len | empty => {:x} {} after reading everything back", d, c.len(), SymbolCoder::is_empty(&c)));
                 return;
             }
         }
     }
 }
 
-fn guard_twin_stack<W: BitArray>(bs: &[bool], views: usize, more: &[bool], rep: &mut Report) {
-    let w = W::BITS;
-    let desc = format!("bits.stack {:x} | new | ws {}", w, show_bits(bs));
+fn guard_twin_queue<W: BitArray>(
+    desc: &str,
+    make: &dyn Fn() -> QueueEncoder<W>,
+    ghost: &[bool],
+    views: usize,
+    more: &[bool],
+    rep: &mut Report,
+) {
     for readback in [false, true] {
-        let mut c = stack_of::<W>(bs);
-        let mut twin = stack_of::<W>(bs);
-        let mut d = desc.clone();
+        let mut c = make();
+        let mut twin = make();
+        let mut d = desc.to_string();
         for _ in 0..views {
             d.push_str(" | getc");
             rep.eval("C08");
+            set_case(&d);
             let view: Vec<W> = c.get_compressed().to_vec();
-            let exp = stack_of::<W>(bs).into_compressed().unwrap_infallible();
+            let exp = make().into_compressed().unwrap_infallible();
             if view != exp {
-                rep.fail("C08", format!("{} => guard shows {} but a freshly encoded twin with the same bits exports {}", d, show_words(&view), show_words(&exp)));
+                rep.fail("C08", format!("{} => guard shows {} but an uninspected twin with the same history exports {}", d, show_words(&view), show_words(&exp)));
                 return;
             }
         }
         rep.eval("C08");
+        rep.eval("C16");
         rep.eval("C18");
+        set_case(&format!("{} | len | empty", d));
         let (l, e, tl, te) = (c.len(), SymbolCoder::is_empty(&c), twin.len(), SymbolCoder::is_empty(&twin));
-        if l != tl || e != te {
-            rep.fail("C08", format!("{} | len | empty => {:x} {} but the uninspected twin reports {:x} {}", d, l, e, tl, te));
-            if tl == bs.len() {
-                rep.fail("C18", format!("{} | len | empty => {:x} {} but {:x} bits were written", d, l, e, bs.len()));
+        if l != tl || e != te || l != ghost.len() || e != ghost.is_empty() {
+            let msg = format!("{} | len | empty => {:x} {} but the uninspected twin reports {:x} {} and {:x} bits were written", d, l, e, tl, te, ghost.len());
+            if l != tl || e != te {
+                rep.fail("C08", msg.clone());
             }
+            if l != ghost.len() {
+                rep.fail("C16", msg.clone());
+            }
+            rep.fail("C18", msg);
             return;
         }
         if !more.is_empty() {
             d.push_str(&format!(" | ws {}", show_bits(more)));
         }
+        set_case(&d);
         for &b in more {
             c.write_bit(b).unwrap_infallible();
             twin.write_bit(b).unwrap_infallible();
         }
+        let mut all = ghost.to_vec();
+        all.extend(more.iter());
         rep.eval("C08");
+        rep.eval("C16");
         if !readback {
+            d.push_str(" | export");
+            set_case(&d);
             let v = c.into_compressed().unwrap_infallible();
             let tv = twin.into_compressed().unwrap_infallible();
             if v != tv {
-                rep.fail("C08", format!("{} | export => {} but the uninspected twin exports {}", d, show_words(&v), show_words(&tv)));
+                rep.fail("C08", format!("{} => {} but the uninspected twin exports {}", d, show_words(&v), show_words(&tv)));
+            }
+            // the export of the inspected encoder must still carry the content, in order
+            let shown = show_words(&v);
+            use constriction::backends::IntoReadWords;
+            let cursor: Cursor<W, Vec<W>> = IntoReadWords::<W, Queue>::into_read_words(v);
+            let back: Vec<bool> = QueueDecoder::from_compressed(cursor).map(|b| b.unwrap_infallible()).collect();
+            if back.len() < all.len() || back[..all.len()] != all[..] || back.len() >= all.len() + W::BITS {
+                rep.fail("C16", format!("{} => exported {}, which decodes as {} but {} was written", d, shown, show_bits(&back), show_bits(&all)));
                 return;
             }
         } else {
-            rep.eval("C16");
-            let got: Vec<bool> = c.into_decoder().map(|b| b.unwrap_infallible()).collect();
-            let tgot: Vec<bool> = twin.into_decoder().map(|b| b.unwrap_infallible()).collect();
+            d.push_str(" | todec");
+            set_case(&d);
+            // read back with the decoder's own inspections (clone, maybe_exhausted) interleaved
+            let mut dec = c.into_decoder().unwrap_infallible();
+            let mut tdec = twin.into_decoder().unwrap_infallible();
+            let mut got = Vec::new();
+            let mut tgot = Vec::new();
+            let mut i = 0usize;
+            loop {
+                if i % 5 == 2 {
+                    rep.eval("C08");
+                    dec = dec.clone();
+                    let _ = dec.maybe_exhausted();
+                }
+                i += 1;
+                match dec.read_bit().unwrap_infallible() {
+                    Some(b) => got.push(b),
+                    None => break,
+                }
+            }
+            while let Some(b) = tdec.read_bit().unwrap_infallible() {
+                tgot.push(b);
+            }
             if got != tgot {
-                rep.fail("C08", format!("{} | todec | drain => {} but the uninspected twin yields {}", d, show_bits(&got), show_bits(&tgot)));
+                rep.fail("C08", format!("{} | drain => {} but the uninspected twin yields {}", d, show_bits(&got), show_bits(&tgot)));
+            }
+            if got.len() < all.len() || got[..all.len()] != all[..] || got.len() >= all.len() + W::BITS {
+                rep.fail("C16", format!("{} | drain => {} does not consist of the written bits {} and less than a word of padding", d, show_bits(&got), show_bits(&all)));
                 return;
             }
-            let mut all = bs.to_vec();
-            all.extend(more.iter());
-            all.reverse();
-            if got != all {
-                rep.fail("C16", format!("{} | todec | drain => {} expected the written bits in reverse {}", d, show_bits(&got), show_bits(&all)));
+            if !dec.maybe_exhausted() {
+                rep.fail("C18", format!("{} | drain | mexh => false after reading everything", d));
                 return;
             }
         }
     }
 }
 
-/// every n in 0..=3·BITS+2 written bits × 1 or 2 guard views × m ∈ {0, 1, BITS} further bits,
-/// for the queue encoder and the stack coder (non-empty coders first)
+/// the setups of the guard-twin class (non-empty coders first):
+///  * n plain writes, n in 0..=3·BITS+2;
+///  * n writes then r reads, with n - r a non-zero multiple of BITS **reached by reading**
+///    (k·BITS content for k = 1, 2 and every r in 1..=BITS+1), plus "down to the boundary" and a
+///    random r for every n;
+///  * coders obtained by `from_compressed` of exported data of n bits (stack: same content;
+///    queue encoder: the zero padded content), n in 0..=3·BITS+2;
+/// each × 1 or 2 guard views × m ∈ {0, 1, BITS} further bits.
 fn oracle_guard_twin<W: BitArray>(rng: &mut Rng, reps: usize, rep: &mut Report) {
     let w = W::BITS;
+    let wx = w as u32;
+    let variants = |rng: &mut Rng| -> Vec<(usize, Vec<bool>)> {
+        let mut v = Vec::new();
+        for views in [1usize, 2] {
+            for m in [0usize, 1, w] {
+                v.push((views, rand_bits(rng, m)));
+            }
+        }
+        v
+    };
+    let _ = wx;
+    // --- 1. read back to a word boundary (stack only: the queue encoder cannot read)
+    for k in [1usize, 2] {
+        for r in 1..=(w + 1) {
+            for _ in 0..reps {
+                let n = k * w + r;
+                let bs = rand_bits(rng, n);
+                let ghost = bs[..n - r].to_vec();
+                let desc = format!("bits.stack {:x} | new | ws {}{}", w, show_bits(&bs), " | r".repeat(r));
+                let make = || {
+                    let mut c = stack_of::<W>(&bs);
+                    for _ in 0..r {
+                        c.read_bit().unwrap_infallible();
+                    }
+                    c
+                };
+                for (views, more) in variants(rng) {
+                    guard_twin_stack::<W>(&desc, &make, &ghost, views, &more, rep);
+                }
+                rep.count(&format!("C08.guard_twin.read_to_boundary.W{}", w));
+            }
+        }
+    }
+    // --- 2. from_compressed of exported data
     for n in (1..=(3 * w + 2)).chain(0..1) {
         for _ in 0..reps {
-            for views in [1usize, 2] {
-                for m in [0usize, 1, w] {
-                    let bs = rand_bits(rng, n);
-                    let more = rand_bits(rng, m);
-                    guard_twin_queue::<W>(&bs, views, &more, rep);
-                    guard_twin_stack::<W>(&bs, views, &more, rep);
-                    if n % w == 0 && n > 0 {
-                        rep.count(&format!("C08.guard_twin.word_multiple.W{}", w));
+            let bs = rand_bits(rng, n);
+            let words = stack_of::<W>(&bs).into_compressed().unwrap_infallible();
+            let desc = format!("bits.stack {:x} | compressed {}", w, show_words(&words));
+            let make = || match StackCoder::<W>::from_compressed(words.clone()) {
+                Ok(c) => c,
+                Err(_) => StackCoder::<W>::new(),
+            };
+            if make().len() == n {
+                // (if the re-import itself is wrong, the export oracles report it)
+                for (views, more) in variants(rng) {
+                    guard_twin_stack::<W>(&desc, &make, &bs, views, &more, rep);
+                }
+            }
+            let qwords = queue_of::<W>(&bs).into_compressed().unwrap_infallible();
+            let qghost = unpack(&qwords);
+            let qdesc = format!("bits.queue {:x} | compressed {}", w, show_words(&qwords));
+            let qmake = || QueueEncoder::<W>::from_compressed(qwords.clone());
+            for (views, more) in variants(rng) {
+                guard_twin_queue::<W>(&qdesc, &qmake, &qghost, views, &more, rep);
+            }
+            rep.count(&format!("C08.guard_twin.from_compressed.W{}", w));
+        }
+    }
+    // --- 3. plain writes, and writes followed by reads (down to the boundary / random)
+    for n in (1..=(3 * w + 2)).chain(0..1) {
+        for rep_i in 0..reps {
+            let bs = rand_bits(rng, n);
+            let desc = format!("bits.stack {:x} | new | ws {}", w, show_bits(&bs));
+            let make = || stack_of::<W>(&bs);
+            let qdesc = format!("bits.queue {:x} | new | ws {}", w, show_bits(&bs));
+            let qmake = || queue_of::<W>(&bs);
+            for (views, more) in variants(rng) {
+                guard_twin_queue::<W>(&qdesc, &qmake, &bs, views, &more, rep);
+                guard_twin_stack::<W>(&desc, &make, &bs, views, &more, rep);
+            }
+            if n % w == 0 && n > 0 {
+                rep.count(&format!("C08.guard_twin.word_multiple.W{}", w));
+            }
+            let r = if rep_i % 2 == 0 { n % w } else { rng.below(n as u128 + 1) as usize };
+            if r > 0 {
+                let ghost = bs[..n - r].to_vec();
+                let desc = format!("{}{}", desc, " | r".repeat(r));
+                let make = || {
+                    let mut c = stack_of::<W>(&bs);
+                    for _ in 0..r {
+                        c.read_bit().unwrap_infallible();
                     }
+                    c
+                };
+                for (views, more) in variants(rng) {
+                    guard_twin_stack::<W>(&desc, &make, &ghost, views, &more, rep);
                 }
             }
         }
     }
     rep.count(&format!("C08.guard_twin.W{}", w));
+    rep.count(&format!("C16.guard_twin.W{}", w));
+    rep.count(&format!("C18.guard_twin.W{}", w));
 }
 
 /// The consuming iterators: `StackCoder::into_iterator()` yields exactly the bits on the stack,
